@@ -108,6 +108,7 @@ class TU:
         self.calls = []         # (callee, file, fn)
         self.fnsum = {}         # fn -> [byte_lvalues, byte_ptr_args]
         self.fieldw = set()     # (fn, field, how): writes of the per-instance error-state fields
+        self.trees = {}         # fn -> (is_static, tree) structured call tree (only for src/turbojpeg*.c)
         self.fn = ""
         self.text = {}
 
@@ -174,6 +175,8 @@ class TU:
                     if isinstance(c, dict) and c.get("kind") == "CompoundStmt":
                         self.fnsum.setdefault(self.fn, [0, 0])
                         self.visit(c, [(d, i)])
+                        if os.path.basename(self.src) == "turbojpeg.c":
+                            self.trees[self.fn] = (d.get("storageClass") == "static", self.tree(c), sorted(self.assigned_names(c)))
                     else:
                         self.skim(c)
                 self.fn = ""
@@ -259,6 +262,98 @@ class TU:
             path.append((n, i))
             self.visit(c, path)
             path.pop()
+
+    def tree(self, n):
+        """structured call tree: ("call", name) | ("seq", [..]) | ("if", guard_text, [branches]) | ("loop", body)"""
+        if not isinstance(n, dict):
+            return ("seq", [])
+        k = n.get("kind")
+        inner = [c for c in n.get("inner", []) if isinstance(c, dict)]
+        if k == "CallExpr":
+            args = [self.tree(c) for c in inner[1:]]
+            return ("seq", args + [("call", self.callee_name(n))])
+        if k == "IfStmt":
+            cond = self.tree(inner[0]) if inner else ("seq", [])
+            g = ""
+            if inner and "_b" in inner[0] and "_e" in inner[0] and not self.has_effect(inner[0]):
+                g = self.cond_text(inner[0]) + "##" + ",".join(sorted(self.names_in(inner[0])))
+            return ("seq", [cond, ("if", g, [self.tree(c) for c in inner[1:]])])
+        if k in ("ForStmt",):
+            # init / cond / inc / body: assignments in the header are loop bookkeeping
+            return ("loop", ("seq", [self.tree(c) for c in inner]))
+        if k in ("WhileStmt", "DoStmt"):
+            return ("loop", ("seq", [self.tree(c) for c in inner]))
+        if k in ("SwitchStmt",):
+            cond = self.tree(inner[0]) if inner else ("seq", [])
+            return ("seq", [cond, ("if", "", [("loop", ("seq", [self.tree(c) for c in inner[1:]]))])])
+        if k in ("ConditionalOperator",):
+            return ("seq", [self.tree(inner[0]), ("if", "", [self.tree(c) for c in inner[1:]])])
+        if k == "BinaryOperator" and n.get("opcode") in ("&&", "||"):
+            return ("seq", [self.tree(inner[0]), ("if", "", [self.tree(c) for c in inner[1:]])])
+        return ("seq", [self.tree(c) for c in inner])
+
+    def cond_text(self, cond):
+        t = self.srctext(cond["_b"], cond["_e"])
+        depth, out = 0, ""
+        for ch in t:
+            if ch == "(":
+                depth += 1
+            elif ch == ")":
+                if depth == 0:
+                    break
+                depth -= 1
+            out += ch
+        return " ".join(out.split())
+
+    def has_effect(self, n):
+        if not isinstance(n, dict):
+            return False
+        k = n.get("kind")
+        if k in ("CallExpr", "CompoundAssignOperator") or (k == "BinaryOperator" and n.get("opcode") == "=") or \
+           (k == "UnaryOperator" and n.get("opcode") in ("++", "--")):
+            return True
+        return any(self.has_effect(c) for c in n.get("inner", []))
+
+    def names_in(self, n, out=None):
+        out = set() if out is None else out
+        if isinstance(n, dict):
+            if n.get("kind") == "DeclRefExpr":
+                out.add((n.get("referencedDecl") or {}).get("name", "?"))
+            for c in n.get("inner", []):
+                self.names_in(c, out)
+        return out
+
+    def assigned_names(self, n, out=None, in_for_header=False):
+        """variables assigned in a function body outside for-loop headers"""
+        out = set() if out is None else out
+        if not isinstance(n, dict):
+            return out
+        k = n.get("kind")
+        tgt = None
+        if k == "CompoundAssignOperator" or (k == "BinaryOperator" and n.get("opcode") == "="):
+            tgt = self.strip(n["inner"][0]) if n.get("inner") else None
+        elif k == "UnaryOperator" and n.get("opcode") in ("++", "--"):
+            tgt = self.strip(n["inner"][0]) if n.get("inner") else None
+        if tgt is not None and not in_for_header:
+            # the base variable of the assigned lvalue (x, x[i], x.f): a write through a pointer (*p, p->f) is not an
+            # assignment to p
+            b = tgt
+            while b.get("kind") in ("ArraySubscriptExpr", "MemberExpr", "ParenExpr", "ImplicitCastExpr") and b.get("inner"):
+                if b.get("kind") == "MemberExpr" and b.get("isArrow"):
+                    b = {}
+                    break
+                b = b["inner"][0]
+            if b.get("kind") == "DeclRefExpr":
+                out.add((b.get("referencedDecl") or {}).get("name", "?"))
+        inner = [c for c in n.get("inner", []) if isinstance(c, dict)]
+        if k == "ForStmt" and inner:
+            for c in inner[:-1]:
+                self.assigned_names(c, out, True)
+            self.assigned_names(inner[-1], out, in_for_header)
+        else:
+            for c in inner:
+                self.assigned_names(c, out, in_for_header)
+        return out
 
     @staticmethod
     def strip(e):
@@ -512,7 +607,8 @@ def analyse(job):
             "vars": [[list(k), v] for k, v in tu.vars.items()],
             "uses": [[list(u[0])] + list(u[1:]) for u in tu.uses],
             "alias_uses": [[list(u[0])] + list(u[1:]) for u in tu.alias_uses],
-            "libc": tu.libc, "calls": tu.calls, "fnsum": tu.fnsum, "fieldw": sorted(tu.fieldw)}
+            "libc": tu.libc, "calls": tu.calls, "fnsum": tu.fnsum, "fieldw": sorted(tu.fieldw),
+            "trees": tu.trees}
 
 
 # ----------------------------------------------------------------- asm
@@ -624,6 +720,7 @@ def main():
     # ---- merge
     vars_, uses, alias_uses, libc, calls, fnsum = {}, {}, {}, set(), set(), {}
     fieldw = set()
+    trees = {}
     ext_defs = {}
     for r, job in zip(results, jobs):
         mult = cjobs[job]
@@ -646,6 +743,8 @@ def main():
             calls.add(tuple(c))
         for fw in r["fieldw"]:
             fieldw.add(tuple(fw))
+        for f, tr in r["trees"].items():
+            trees[f] = tr
         for f, s in r["fnsum"].items():
             old = fnsum.get(f)
             fnsum[f] = [max(s[0], old[0]), max(s[1], old[1])] if old else list(s)
@@ -721,7 +820,7 @@ def main():
     o = []
     o.append("(* GENERATED by tools/gen_Globals.py from the clang ASTs of %d library translation units and %d .asm files"
              " of the current tree -- do not edit *)" % (len(jobs), len(asm_jobs)))
-    o.append("From Coq Require Import List ZArith String.\nFrom LJT Require Import model.Globals.\nImport ListNotations.")
+    o.append("From Coq Require Import List ZArith String.\nFrom LJT Require Import model.Globals model.DestFlow.\nImport ListNotations.")
     o.append("Local Open Scope string_scope.\nLocal Open Scope Z_scope.\n")
     o.append("Definition n_translation_units : Z := %d." % len(jobs))
     o.append("Definition n_asm_files : Z := %d.\n" % len(asm_jobs))
@@ -761,6 +860,75 @@ def main():
     o.append("Definition errstate_calls : list (string * string) := [")
     ec = sorted({(c[2], c[0]) for c in calls if c[0] in ("set_instance_error", "my_output_message") and c[2]})
     o.append(";\n".join("  (%s, %s)" % (coq_str(a), coq_str(b)) for a, b in ec) + "\n].\n")
+
+    # ---- destination set before the first emit: structured call trees of the TurboJPEG functions that (transitively) emit
+    EMIT0 = {"jpeg_start_compress", "jpeg_write_scanlines", "jpeg12_write_scanlines", "jpeg16_write_scanlines", "jpeg_write_raw_data",
+             "jpeg12_write_raw_data", "jpeg_finish_compress", "jpeg_write_coefficients", "jpeg_write_marker", "jpeg_write_m_header",
+             "jpeg_write_m_byte", "jpeg_write_icc_profile", "jpeg_write_tables", "jcopy_markers_execute"}
+    DEST = "jpeg_mem_dest_tj"
+
+    def calls_of(tr):
+        if tr[0] == "call":
+            return [tr[1]]
+        if tr[0] == "loop":
+            return calls_of(tr[1])
+        return [c for x in tr[-1] for c in calls_of(x)]
+    emitters = set(EMIT0)
+    changed = True
+    while changed:
+        changed = False
+        for f, (st, tr, asg) in trees.items():
+            if f not in emitters and any(c in emitters for c in calls_of(tr)):
+                emitters.add(f)
+                changed = True
+    if not any(c == DEST for f, (st, tr, asg) in trees.items() for c in calls_of(tr)):
+        die("src/turbojpeg.c: no call of jpeg_mem_dest_tj found in the TurboJPEG translation unit")
+    gids = {}
+
+    def coq_tree(tr, asg):
+        if tr[0] == "call":
+            c = tr[1]
+            if c == DEST:
+                return "NCall 1"
+            if c in EMIT0:
+                return "NCall 2"
+            if c in emitters:
+                return "NCallF %s" % coq_str(c)
+            return "NCall 0"
+        if tr[0] == "loop":
+            return "NLoop (%s)" % coq_tree(tr[1], asg)
+        kids = [coq_tree(x, asg) for x in tr[-1]]
+        if tr[0] == "if":
+            g = 0
+            if tr[1]:
+                text, names = tr[1].split("##")
+                if not (set(names.split(",")) & set(asg)):
+                    g = gids.setdefault(text, len(gids) + 1)
+            if all(k in ("NSeq []", "NCall 0") or k.startswith("NIf 0 []") for k in kids):
+                return "NSeq []"
+            return "NIf %d [%s]" % (g, "; ".join(kids))
+        kids = [k for k in kids if k not in ("NSeq []", "NCall 0")]
+        if len(kids) == 1:
+            return kids[0]
+        return "NSeq [%s]" % "; ".join(kids)
+    # callees first
+    order, seen = [], set()
+
+    def visit_f(f):
+        if f in seen or f not in trees:
+            return
+        seen.add(f)
+        for c in calls_of(trees[f][1]):
+            if c in emitters and c in trees:
+                visit_f(c)
+        order.append(f)
+    for f in sorted(trees):
+        if f in emitters:
+            visit_f(f)
+    o.append("(* structured call trees of the functions of src/turbojpeg.c (+ turbojpeg-mp.c) that can emit JPEG bytes, callees first *)")
+    o.append("Definition emit_trees : list (string * node) := [")
+    o.append(";\n".join("  (%s, %s)" % (coq_str(f), coq_tree(trees[f][1], trees[f][2])) for f in order) + "\n].\n")
+    o.append("Definition emit_guards : list (Z * string) := [%s].\n" % "; ".join("(%d, %s)" % (v, coq_str(k)) for k, v in sorted(gids.items(), key=lambda x: x[1])))
     o.append("Definition escapes : list escape_info := [")
     rows = []
     for e in escs:
